@@ -25,8 +25,8 @@ ASSUMPTIONS = [
 
 LETTERS = ["A", "A2", "B", "U", "S"]
 PROBE_NAMES = ["user_name_avp", "user_name_avp__1", "origin_host_avp", "unknown_avp", "session_id_avp",
-               "custom_avp", "zz_avp", "user_name_avp__2", "origin_realm_avp"]
-NEW_KEYS = ["custom_avp", "zz_avp"]
+               "custom_avp", "host", "user_name_avp__2", "origin_realm_avp"]
+NEW_KEYS = ["custom_avp", "host"]
 UPDATES = [("user_name", "b"), ("origin_host", "x.example"), ("nonexistent", "v"), ("user_name__1", "c")]
 
 
@@ -46,6 +46,13 @@ def make_letter(letter):
 
 def is_avp_key(k):
     return k.endswith("_avp") or "_avp__" in k
+
+
+def named_view(msg):
+    """Every attribute of the message that refers to an AVP object, whatever the attribute is called
+    (update_key accepts any new name)."""
+    from bromelia.base import DiameterAVP
+    return {k: v for k, v in msg.__dict__.items() if isinstance(v, DiameterAVP)}
 
 
 class State:
@@ -77,7 +84,7 @@ class State:
         return lab
 
     def view(self):
-        return {k: v for k, v in self.msg.__dict__.items() if is_avp_key(k)}
+        return named_view(self.msg)
 
     def lst(self):
         return self.msg.avps
@@ -221,12 +228,12 @@ def check_invariants(st, before_list, before_view, op, outcome):
 PROFILES = {
     # tier -> kind -> (letters, list cap, new keys, updates, set_avps pairs?)
     "quick": {
-        "empty": (["A", "A2", "B", "U"], 3, NEW_KEYS[:1], UPDATES[:1] + UPDATES[2:3], False),
+        "empty": (["A", "A2", "B", "U"], 3, NEW_KEYS[1:], UPDATES[:1] + UPDATES[2:3], False),
         "dwr": (["A", "A2"], 3, NEW_KEYS[:1], UPDATES[:3], False),
         "ulr": (["A", "A2"], None, [], UPDATES[:3], False),
     },
     "thorough": {
-        "empty": (LETTERS, 3, NEW_KEYS[:1], UPDATES[:1] + UPDATES[2:3], True),
+        "empty": (LETTERS, 3, NEW_KEYS[1:], UPDATES[:1] + UPDATES[2:3], True),
         "empty4": (["A", "A2", "B"], 4, NEW_KEYS[:1], UPDATES[:1] + UPDATES[2:3], False),
         "dwr": (["A", "A2", "U"], 4, NEW_KEYS[:1], UPDATES, False),
         "ulr": (["A", "A2"], None, [], UPDATES, False),
